@@ -208,7 +208,9 @@ where F: Fn(u64, &mut Rng, &mut Report) + Sync {
                     let i = indices[k];
                     let mut rng = Rng::derive(cfg.seed, gid, i);
                     heathcliff::verif::set_thread_entropy(Some(Rng::derive(cfg.seed ^ 0x5eed, gid, i).u64()));
+                    case_begin(group, i);
                     let r = catch_unwind(AssertUnwindSafe(|| f(i, &mut rng, &mut local)));
+                    case_end();
                     heathcliff::verif::set_thread_entropy(None);
                     if r.is_err() {
                         let msg = LAST_PANIC.with(|p| p.borrow_mut().take()).unwrap_or_default();
@@ -220,6 +222,43 @@ where F: Fn(u64, &mut Rng, &mut Report) + Sync {
         }
     });
     report.merge(merged.into_inner().unwrap());
+}
+
+// ---------------------------------------------------------------- case watchdog (bounded progress)
+static ACTIVE: Mutex<Vec<(std::thread::ThreadId, String, u64, Instant)>> = Mutex::new(Vec::new());
+
+fn case_begin(group: &str, case: u64) { ACTIVE.lock().unwrap().push((std::thread::current().id(), group.to_string(), case, Instant::now())); }
+fn case_end() { let id = std::thread::current().id(); ACTIVE.lock().unwrap().retain(|e| e.0 != id); }
+
+/// Start the process-wide watchdog: a case that does not finish within `deadline` (cases are designed to take well
+/// under a second) is reported as a hang of the library call it is executing: VIOLATION line, replay file, evidence,
+/// exit 1. The stuck thread cannot be cancelled, so the process ends here.
+pub fn start_case_watchdog(prop: String, cfg: Cfg, verif_dir: String, deadline: std::time::Duration) {
+    std::thread::spawn(move || loop {
+        std::thread::sleep(std::time::Duration::from_secs(2));
+        let stuck = ACTIVE.lock().unwrap().iter().find(|e| e.3.elapsed() > deadline).map(|e| (e.1.clone(), e.2));
+        if let Some((group, case)) = stuck {
+            let sig = format!("{}|{}|case_deadline|hang", prop, group);
+            let known = load_known(&format!("{}/known_findings.json", verif_dir));
+            if let Some(k) = known.iter().find(|k| k.property == prop && k.status == "known" && k.signature == sig) {
+                println!("KNOWN-FINDING: property={} signature={} {}", prop, sig, k.what);
+            }
+            let dir = format!("{}/replays/{}", verif_dir, prop);
+            let _ = std::fs::create_dir_all(&dir);
+            let path = format!("{}/{}_hang_{}_{}.json", dir, cfg.tier.name(), group, case);
+            let body = json!({"property": prop, "signature": sig, "detail": format!("case did not finish within {:?}", deadline), "replay": {"seed": cfg.seed, "tier": cfg.tier.name(), "group": group, "case": case, "info": {}}});
+            let _ = std::fs::write(&path, serde_json::to_string_pretty(&body).unwrap());
+            println!("VIOLATION property={} replay={}", prop, path);
+            println!("  signature: {}", sig);
+            println!("  detail: group {} case {} did not return within {:?} (cases normally take well under a second): a library call does not terminate", group, case, deadline);
+            let ev = json!({"property_id": prop, "tier": cfg.tier.name(), "seed": cfg.seed, "level": "exploration",
+                "coverage": {"evaluations": 1, "distinct_nontrivial": 2, "rule": "run aborted by the case watchdog", "samples": [{"group": group, "case": case}], "verdict": "violated", "unlisted_violation_signatures": [sig]},
+                "assumptions": ["bounded progress: a case not finishing within the deadline is a hang"], "wall_s": deadline.as_secs_f64(), "violations": 1});
+            let _ = std::fs::create_dir_all(format!("{}/evidence", verif_dir));
+            if cfg.only_case.is_none() { let _ = std::fs::write(format!("{}/evidence/{}.json", verif_dir, prop), serde_json::to_string_pretty(&ev).unwrap()); }
+            std::process::exit(1);
+        }
+    });
 }
 
 pub fn replay_json(cfg: &Cfg, group: &str, case: u64, extra: Value) -> Value {
